@@ -156,6 +156,7 @@ fn try_(r: Result(a, e), k: fn(a) -> Result(b, e)) -> Result(b, e) { case r { Ok
 fn map(l: List(a), f: fn(a) -> b) -> List(b) { case l { [] -> [] [h, ..t] -> [f(h), ..map(t, f)] } }
 fn apply(v: a, k: fn(a) -> b) -> b { k(v) }
 fn show(n: Int) -> String { todo }
+fn both(x: a, y: b, k: fn(a, b) -> c) -> c { k(x, y) }
 ";
 
 const PARAMS: &str = "i: Int, f: Float, s: String, b: Bool, l: List(Int), t: #(Int, String), r: Result(Int, String), g: fn(Int) -> Int, c: Color, p: Pair, bx: Box(Int), ls: List(String), tr: Triple, gg: G(Int, String, Float), u3: U3, m4: M4(Bool), nn: N(Int, String)";
@@ -569,6 +570,18 @@ fn context_cases() -> Vec<(String, String, Vec<(String, RTy)>)> {
                 let stmt = tpl.replace("{b}", &b).replace("{e}", &e).replace("{v}", v).replace("{x}", &x);
                 let projected = if *proj == "e" { "binder itself" } else if proj.contains('+') { "arithmetic on a projection" } else if proj.chars().last().map_or(false, |c| c.is_ascii_digit()) { "tuple index" } else { "field access" };
                 out.push((format!("{kind}|{projected}"), stmt, vec![(b, rt), (e, vt.clone())]));
+            }
+        }
+    }
+    // two binders typed by one call: every ordered pair of four value types, as `use` and as a lambda
+    let vals: Vec<(&str, RTy)> = vec![("i", Int), ("s", Str), ("f", Float), ("t", it())];
+    for (v1, t1) in &vals {
+        for (v2, t2) in &vals {
+            for (kind, tpl) in [("use with two binders", "let {b} = { use {p}, {q} <- both({v1}, {v2}) #({q}, {p}) }"), ("two-parameter callback of a generic function", "let {b} = both({v1}, {v2}, fn({p}, {q}) { #({q}, {p}) })")] {
+                n += 1;
+                let (b, p_, q_) = (format!("cx{n}"), format!("cp{n}"), format!("cq{n}"));
+                let stmt = tpl.replace("{b}", &b).replace("{p}", &p_).replace("{q}", &q_).replace("{v1}", v1).replace("{v2}", v2);
+                out.push((format!("{kind}|binder itself"), stmt, vec![(b, Tuple(vec![t2.clone(), t1.clone()])), (p_, t1.clone()), (q_, t2.clone())]));
             }
         }
     }
